@@ -89,11 +89,27 @@ def deviations():
         # list 3 as successor; 4 lists 2 as right neighbour but 2 does not list 4 (whatever refers to a removed lanelet must still be cleaned)
         sp["lanelets"][1]["pred"] = []; sp["lanelets"][1]["succ"] = []; sp["lanelets"][1].pop("adj_left", None)
 
+    def signs_without_first_occurrence(sp):
+        # signs as a file reader creates them: referenced by lanelets and stop lines, first_occurrence empty
+        for sg in sp["signs"]:
+            sg["first_occurrence"] = []
+
+    def shared_reference_sets(sp):
+        # lanelets 2 and 3 are constructed with ONE set object for their light references (and one for their sign references); 3 has a stop line
+        # with its own reference sets
+        sp["lanelets"][1]["lights"] = [12]; sp["lanelets"][2]["lights"] = [12]
+        sp["lanelets"][1]["lights_shared"] = "L"; sp["lanelets"][2]["lights_shared"] = "L"
+        sp["lanelets"][1]["signs"] = [10, 11]; sp["lanelets"][2]["signs"] = [10, 11]
+        sp["lanelets"][1]["signs_shared"] = "S"; sp["lanelets"][2]["signs_shared"] = "S"
+        sp["lanelets"][1]["stop_line"]["sign_ref"] = [10]
+        sp["lanelets"][2]["stop_line"]["light_ref"] = [12]
+
     def two_incoming_lanelets(sp):
         sp["intersections"][0]["incomings"][0]["lanelets"] = [1, 2]
         sp["intersections"][0]["incomings"][0]["left"] = [4]
     return [("diamond", diamond), ("sixth-lanelet", sixth), ("adjacency-flip", adj_flip), ("sign-on-all", sign_all), ("second-intersection", second_intersection),
-            ("light-shared", light_shared), ("incoming-two-lanelets", two_incoming_lanelets), ("stopline-light-subset", stopline_light_subset), ("one-sided-links", one_sided_links)]
+            ("light-shared", light_shared), ("incoming-two-lanelets", two_incoming_lanelets), ("stopline-light-subset", stopline_light_subset), ("one-sided-links", one_sided_links), ("signs-without-first-occurrence", signs_without_first_occurrence),
+            ("shared-reference-sets", shared_reference_sets)]
 
 
 def variant(names):
@@ -479,7 +495,7 @@ def variants(tier):
 
 def describe(tier):
     return {"base": "5 lanelets, 2 signs, 2 lights, 2 stop lines, 1 intersection (2 incomings, 1 crossing)", "deviations": [n for n, _ in deviations()],
-            "k": 1 if tier == "quick" else 2, "depth": 3 if tier == "quick" else 4, "levels": ["net", "scenario"], "cut_shapes": CUT_SHAPES, "type_sets": TYPE_SETS,
+            "k": 1 if tier == "quick" else 2, "depth": "3 (2 for the four reference-data deviations)" if tier == "quick" else "4 for k<=1, 2 for pairs", "levels": ["net", "scenario"], "cut_shapes": CUT_SHAPES, "type_sets": TYPE_SETS,
             "exhaustive": True}
 
 
@@ -488,7 +504,10 @@ def units(tier):
     depth = 3 if tier == "quick" else 4
     for v in variants(tier):
         for level in ("net", "scenario"):
-            d = 3 if (tier == "thorough" and len(v) == 2) else depth
+            # thorough: pairs of deviations at depth 2; quick: the four deviations that only alter reference data (not the graph) at depth 2
+            d = 2 if (tier == "thorough" and len(v) == 2) else depth
+            if tier == "quick" and v and v[0] in ("stopline-light-subset", "one-sided-links", "signs-without-first-occurrence", "shared-reference-sets"):
+                d = 2
             live = build_net(v) if level == "net" else build_scenario(v)
             u.append({"variant": v, "level": level, "depth": 0, "first": None})
             for op in enabled_for(level)(real_snapshot(live)):
